@@ -25,7 +25,7 @@ from ..mmio import *
 EXPLANATION = ("bar_info and cam_offset are loop-free: their MIR is converted to guarded traces of ConfigurationAccess reads/writes "
                "and folded against a Python model of PCI configuration space over an enumerated table of BAR kinds, sizes, slots "
                "and command values; returned values and final register state are compared with the PCI 3.0 definition.")
-FLOORS = {'bus_iterators': 1, 'bar_scenarios': 1000, 'cam_rows': 500}
+FLOORS = {'identity_fields': 6, 'cam_accessors': 2, 'bus_iterators': 1, 'bar_scenarios': 1000, 'cam_rows': 500}
 CFGACC = 'transport::pci::bus::ConfigurationAccess'
 
 
@@ -210,6 +210,52 @@ def decode_barinfo(fo, ret):
         return ('unfoldable', str(e)[:80])
 
 
+def b3_word_index(F, R, cam_ids):
+    """The MMIO accessors built on the offset function address 32-bit words: element index = byte offset >> 2, for the
+    device function and register they were asked for (read and write agree)."""
+    n = 0
+    for b in F.bodies.values():
+        if not F.handwritten(b) or b.get('impl_trait') != 'transport::pci::bus::ConfigurationAccess' or b['name'] not in ('read_word', 'write_word'):
+            continue
+        if not any(bl['term']['k'] == 'call' and bl['term'].get('fn') in cam_ids for bl in b['blocks']):
+            continue
+        sg = supergraph(F, b['id'], opaque=lambda t, bb: bb['id'] in cam_ids, tag='b3w')
+        S = sg.sym
+        where = fn_site(F, b['id'])
+        bad = None
+        gets = [c for c in sg.calls(lambda d: d.get('fn', '').endswith('::get') or d.get('fn', '').endswith('::get_mut') or '::index' in d.get('fn', ''))]
+        cams = [c for c in sg.calls(lambda d: d.get('fn') in cam_ids)]
+        if not gets:
+            continue      # not a word-array window (e.g. the hypercall based accessor passes the byte offset on)
+        n += 1
+        if len(cams) != 1:
+            bad = '%d offset computations, %d element selections' % (len(cams), len(gets))
+        else:
+            c = cams[0]
+            args = [S.operand(c.id, a) for a in c.d['args']]
+            if not (strip_conv(args[1]) == ('param', 2) and strip_conv(args[2]) == ('param', 3)):
+                bad = 'the offset is computed for (%s, %s), not for the requested device function and register' % (fmt(args[1])[:40], fmt(args[2])[:40])
+            for g in gets:
+                idx = S.operand(g.id, g.d['args'][1])
+                for off in (0, 4, 0x3c, 0x100, 0xffffc, 0xfffffffc):
+                    def leaf(t, off=off):
+                        if t[0] == 'call' and t[2] in cam_ids:
+                            return off
+                        raise Unfoldable(fmt(t)[:60])
+                    try:
+                        got = Folder(leaf).ev(idx)
+                    except Unfoldable as e:
+                        bad = 'cannot fold the element index: %s' % e
+                        break
+                    R.tables += 1
+                    if got != off >> 2:
+                        bad = 'byte offset %#x is accessed at word index %#x, expected %#x' % (off, got, off >> 2)
+                        break
+        R.check(bad is None, 'B3', '%s:word-index' % b['id'], where, 'accesses word (byte offset >> 2) of the requested function/register',
+                'configuration access through the memory-mapped window: %s' % bad)
+    R.count('cam_accessors', n)
+
+
 def b3_cam(F, R):
     cams = [b for b in F.bodies.values() if F.handwritten(b) and b['name'] == 'cam_offset']
     cams = [b for b in F.bodies.values() if F.handwritten(b) and b['kind'] == 'AssocFn' and b.get('impl_adt') == 'transport::pci::bus::Cam'
@@ -217,6 +263,7 @@ def b3_cam(F, R):
     if not cams:
         R.abstain('B3', 'cam_offset', 'CAM offset function not found by signature')
         return
+    b3_word_index(F, R, set(b['id'] for b in cams))
     for b in cams:
         sg = supergraph(F, b['id'])
         where = fn_site(F, b['id'])
@@ -286,6 +333,24 @@ def b3_cam(F, R):
                 'configuration-space addressing: %s' % bad)
 
 
+def header_type_name(F, code):
+    """Variant the crate's `From<u8> for HeaderType` yields for a header-type code."""
+    for b in F.bodies.values():
+        if b.get('impl_trait') == 'core::convert::From' and 'HeaderType' in (b.get('impl_self') or '') and b['name'] == 'from' and F.handwritten(b):
+            try:
+                paths = PathEnum(supergraph(F, b['id'])).run()
+            except PathLimit:
+                return None
+            fo = Folder(lambda t: code if t == ('param', 1) else (_ for _ in ()).throw(Unfoldable(fmt(t)[:40])))
+            try:
+                hit = [p for p in paths if not p.panicked and path_holds(fo, p)]
+            except Unfoldable:
+                return None
+            if len(hit) == 1 and hit[0].ret and hit[0].ret[0] == 'agg':
+                return hit[0].ret[1].rsplit('::', 1)[1]
+    return None
+
+
 def b5_bus_walk(F, R):
     its = [b for b in F.bodies.values() if F.handwritten(b) and b.get('impl_trait') == 'core::iter::Iterator' and b['name'] == 'next'
            and 'BusDeviceIterator' in b.get('impl_self', '')]
@@ -313,8 +378,8 @@ def b5_bus_walk(F, R):
                 if t[0] == 'call' and 'read_word' in t[2]:
                     off = fold_const(t[3][2]) if len(t[3]) > 2 else None
                     if off == 0:
-                        return 0x10001af4 if present else 0xffffffff
-                    return 0x02000001 if off == 8 else 0
+                        return 0x10411af4 if present else 0xffffffff
+                    return {8: 0x0c035510, 12: 0x00810000}.get(off, 0)
                 if 'log::' in fmt(t):
                     return 0
                 raise Unfoldable(fmt(t)[:80])
@@ -347,7 +412,21 @@ def b5_bus_walk(F, R):
             if r and r[0] == 'agg' and r[1].endswith('::Some'):
                 cur = r[2][0][2][0] if r[2][0][0] == 'agg' else None
                 if cur is not None and cur[0] == 'load0' and cur[1][2] and cur[1][2][-1][1] == 'next':
-                    return ('some', nd, nf, probes, (d, f))
+                    info = r[2][0][2][1] if len(r[2][0][2]) > 1 else None
+                    dec = {}
+                    if info is not None and info[0] == 'agg':
+                        for fname, op in zip(info[3], info[2]):
+                            try:
+                                v = op
+                                if v[0] == 'call' and v[2].endswith('::from') and len(v[3]) == 1:
+                                    v = v[3][0]
+                                if v[0] == 'agg' and fname == 'header_type':
+                                    dec[fname] = v[1].rsplit('::', 1)[1]
+                                else:
+                                    dec[fname] = fo.ev(v)
+                            except Unfoldable:
+                                dec[fname] = None
+                    return ('some', nd, nf, probes, (d, f), dec)
                 return ('some', nd, nf, probes, ('?', fmt(cur)[:60] if cur else '?'))
             return ('bad', 'unrecognised path end %s' % (p.end,))
         bad = None
@@ -387,6 +466,21 @@ def b5_bus_walk(F, R):
                     if st[0] != 'some' or st[4] != (dd, ff):
                         bad = 'function present at (device %d, function %d): iterator yields %s' % (dd, ff, st[4] if st[0] == 'some' else st[0])
                         break
+                    dec = st[5] if len(st) > 5 else {}
+                    want_dec = {'vendor_id': 0x1af4, 'device_id': 0x1041, 'class': 0x0c, 'subclass': 0x03, 'prog_if': 0x55, 'revision': 0x10}
+                    ht = header_type_name(F, 0x01)
+                    if isinstance(dec.get('header_type'), str) and ht and dec['header_type'] != ht:
+                        bad = 'header type byte 0x81 (code 1, multi-function bit set) decoded as %s; the crate\'s own From<u8> maps code 1 to %s' % (dec['header_type'], ht)
+                        break
+                    if isinstance(dec.get('header_type'), int):
+                        want_dec['header_type'] = 1
+                    wrong = {k: (dec[k], v) for k, v in want_dec.items() if k in dec and isinstance(dec[k], int) and dec[k] != v}
+                    if wrong and (dd, ff) == (0, 0):
+                        bad = 'identity decoding of a present function (words 0x10411af4 / 0x0c035510 / 0x00810000 at offsets 0/8/12): %s' % ', '.join(
+                            '%s = %#x, PCI header defines %#x' % (k, a, w) for k, (a, w) in sorted(wrong.items()))
+                        break
+                    if (dd, ff) == (0, 0):
+                        R.count('identity_fields', sum(1 for k in want_dec if dec.get(k) is not None))
                     if (st[1], st[2]) != succ.get((dd, ff), (st[1], st[2])):
                         bad = 'after reporting (device %d, function %d) the iterator continues at %s, but at %s when that function is absent' % (dd, ff, (st[1], st[2]), succ[(dd, ff)])
                         break
